@@ -91,7 +91,7 @@ fn node_kind_of(name: &str) -> Option<&'static str> {
 }
 
 const IDS: [&str; 6] = ["A", "b", "Foo", "x1", "_t", "NAME"];
-const INTS: [&str; 6] = ["0", "7", "42", "0x1F", "0b101", "3"];
+const INTS: [&str; 14] = ["0", "7", "42", "0x1F", "0b101", "3", "0xFFFFFFFFFFFFFFFF", "0x8000000000000000", "0xffffffff00000000", "0b1111111111111111111111111111111111111111111111111111111111111111", "9223372036854775807", "0x0", "0b0", "007"];
 const BANGS: [&str; 10] = ["!add", "!if", "!foreach", "!cast", "!strconcat", "!eq", "!size", "!listconcat", "!foldl", "!isa"];
 
 fn render_terminal(t: &str, rng: &mut Rng) -> String {
